@@ -14,6 +14,18 @@ CHECKS = {
         "technique": "MIR variant specialisation + interval arithmetic over the operator tables; edge-dominance in the dispatcher CFG",
     },
 }
+CHECKS["C02"] = {
+    "level": "other",
+    "text": "Decides, for all values and all paths of the dispatcher: the key set of the three operator tables equals the 35 documented names (disjoint, key==symbol, documented table kind, aliasing only for if/?:); every Ok(Some(operation)) exit is edge-dominated by the Object edge, a Map::len==1 edge and the lookup-hit edge, and the looked-up key is the object's first key verbatim (no transforming call on the chain); the literal parser is the last alternative, accepts unconditionally, evaluates to the stored reference and converts by clone/move only; the value parser is invoked only from enumerated roles and never on a computed value (interprocedural provenance).",
+    "note": "Structural necessary conditions plus the identity path; trusted: rustc MIR, phf's key comparison, Value::clone being structural, spec/operators.json. Does not decide serde_json's own parsing of the rule text.",
+    "technique": "operator-table reading from promoted MIR; edge-dominance in the dispatcher CFG; def-use chain whitelist; interprocedural may-provenance analysis",
+}
+CHECKS["C04"] = {
+    "level": "other",
+    "text": "May-provenance analysis over all paths and call sites: every parameter position that is interpreted as rule text (entry point, value parser, list parser, four parser impls, dispatcher; 29 call sites) receives only values whose provenance is rule text — never data or evaluation results; path-insensitively dirty sites are re-examined by case analysis on the operand kind. Eager and data table functions cannot reach the interpreter in the call graph; the operation evaluators evaluate each stored argument exactly once and return the operator's result unchanged.",
+    "note": "Sound over-approximation w.r.t. the std adaptor transfer models listed in rules/prov.py; unknown calls default to the union of all argument tags. 'At most once per use' for lazy operators is covered by C05's clauses, not here.",
+    "technique": "interprocedural flow-insensitive taint (provenance) analysis on MIR with variant case-splitting; call-graph reachability",
+}
 NOT_APPLICABLE = {}
 for i in range(1, 20):
     p = "C%02d" % i
